@@ -291,3 +291,133 @@ Lemma coap_write_batch_sent known op iids values d :
 Proof.
   unfold coap_write_batch. destruct (forallb _ known); [intros H; split; [reflexivity|exact H]|discriminate].
 Qed.
+
+(* ---------------------------------------------------------------- an undefined status byte aborts the whole batch *)
+Lemma coap_decode_all_bad_status : forall pre idx fuel c t s b post,
+  forallb coap_item_ok pre = true -> (6 < s)%N -> length pre < fuel ->
+  coap_decode_all_f fuel idx (concat (map coap_render (pre ++ (c, t, s, b) :: post))) = Err ValueError.
+Proof.
+  induction pre as [|it r IH]; intros idx fuel c t s b post Hok Hs Hf.
+  - destruct fuel as [|fuel]; [lia|].
+    cbn [app map concat coap_render]. rewrite le16_cons. cbn [app coap_decode_all_f].
+    rewrite coap_decode_bad_status by exact Hs. reflexivity.
+  - destruct fuel as [|fuel]; [cbn in Hf; lia|].
+    cbn [forallb] in Hok. apply andb_true_iff in Hok. destruct Hok as [Hit Hr].
+    cbn [app map concat].
+    remember (concat (map coap_render (r ++ (c, t, s, b) :: post))) as rest eqn:Er.
+    cbn [coap_decode_all_f]. rewrite coap_decode_render by exact Hit. cbn [rbind fst snd].
+    rewrite Nat2N.id.
+    assert (Ladv : 5 + length (snd it) = length (coap_render it)) by (symmetry; apply render_length).
+    rewrite Ladv, app_length.
+    assert (Hrest : 0 < length rest).
+    { subst rest. pose proof (concat_render_length (r ++ (c, t, s, b) :: post)) as L.
+      rewrite app_length in L. cbn [length] in L. lia. }
+    destruct (Nat.leb_spec (length (coap_render it) + length rest) (length (coap_render it))); [lia|].
+    rewrite skipn_app, skipn_all, Nat.sub_diag. cbn [app skipn].
+    subst rest. rewrite IH; [reflexivity|exact Hr|exact Hs|cbn [length] in Hf; lia].
+Qed.
+
+Lemma coap_bad_status_aborts pre c t s b post :
+  forallb coap_item_ok pre = true -> (6 < s)%N ->
+  coap_decode_all 0 (concat (map coap_render (pre ++ (c, t, s, b) :: post))) = Err ValueError.
+Proof.
+  intros Hok Hs. unfold coap_decode_all. apply coap_decode_all_bad_status; try assumption.
+  pose proof (concat_render_length (pre ++ (c, t, s, b) :: post)) as L.
+  rewrite app_length in L. cbn [length] in L. lia.
+Qed.
+
+(* ---------------------------------------------------------------- read exit: entries and cache writes *)
+Definition read_entries dec known (prs : list ((N * N) * cres)) : list ((N * N) * rval) :=
+  map (fun kr => (fst kr, fst (read_entry dec known (snd (fst kr)) (snd kr)))) prs.
+Definition read_writes dec known (prs : list ((N * N) * cres)) : list (N * bytes) :=
+  flat_map (fun kr => snd (read_entry dec known (snd (fst kr)) (snd kr))) prs.
+
+Lemma coap_read_exit_combine dec known : forall (rs : list cres) (ids : list (N * N)),
+  length rs <= length ids ->
+  coap_read_exit dec known ids rs
+  = Ok (read_entries dec known (combine ids rs), read_writes dec known (combine ids rs)).
+Proof.
+  induction rs as [|r rs IH]; intros ids H.
+  - destruct ids; reflexivity.
+  - destruct ids as [|k ids]; [cbn in H; lia|].
+    cbn [coap_read_exit combine]. rewrite IH by (cbn in H; lia). reflexivity.
+Qed.
+
+Lemma coap_read_exit_surplus dec known : forall (rs : list cres) (ids : list (N * N)),
+  length ids < length rs -> coap_read_exit dec known ids rs = Crash.
+Proof.
+  induction rs as [|r rs IH]; intros ids H; [cbn in H; lia|].
+  destruct ids as [|k ids]; [reflexivity|].
+  cbn [coap_read_exit]. rewrite IH by (cbn in H; lia). reflexivity.
+Qed.
+
+Lemma In_combine_nth {A B} : forall (a : list A) (b : list B) x y,
+  In (x, y) (combine a b) <-> exists i, nth_error a i = Some x /\ nth_error b i = Some y.
+Proof.
+  induction a as [|a0 a IH]; intros b x y.
+  - cbn. split; [contradiction|]. intros [i [H _]]. destruct i; discriminate.
+  - destruct b as [|b0 b].
+    + cbn. split; [contradiction|]. intros [i [_ H]]. destruct i; discriminate.
+    + cbn [combine In]. rewrite IH. split.
+      * intros [E|[i [Ha Hb]]].
+        -- injection E as <- <-. exists 0. split; reflexivity.
+        -- exists (S i). split; assumption.
+      * intros [[|i] [Ha Hb]].
+        -- cbn in Ha, Hb. left. congruence.
+        -- right. exists i. split; assumption.
+Qed.
+
+(* nothing is invented and nothing is lost in the cache: (iid, v) is written iff some position i of
+   the batch asked for a known iid and item i is a non-empty body decoding to v *)
+Lemma read_writes_char dec known ids rs x v :
+  In (x, v) (read_writes dec known (combine ids rs)) <->
+  exists i k b, nth_error ids i = Some k /\ nth_error rs i = Some (CBody b)
+                /\ snd k = x /\ known x = true /\ b <> [] /\ dec b = v.
+Proof.
+  unfold read_writes. rewrite in_flat_map. split.
+  - intros [[k r] [Hin Hw]]. apply In_combine_nth in Hin. destruct Hin as [i [Hk Hr]].
+    cbn [fst snd] in Hw. unfold read_entry in Hw.
+    destruct r as [b|s]; [|cbn in Hw; contradiction].
+    destruct b as [|b0 b']; [cbn in Hw; contradiction|].
+    cbn [nil_b] in Hw. destruct (known (snd k)) eqn:Ek; [|cbn in Hw; contradiction].
+    cbn in Hw. destruct Hw as [E|[]]. injection E as E1 E2.
+    exists i, k, (b0 :: b'). repeat split; try assumption; try congruence; try discriminate.
+  - intros [i [k [b [Hk [Hr [Hx [Hkn [Hb Hv]]]]]]]].
+    exists (k, CBody b). split; [apply In_combine_nth; exists i; split; assumption|].
+    cbn [fst snd]. unfold read_entry. destruct b as [|b0 b']; [contradiction|].
+    cbn [nil_b]. rewrite Hx, Hkn. cbn. left. rewrite Hv. reflexivity.
+Qed.
+
+Lemma read_entries_nth dec known ids rs i k r :
+  nth_error ids i = Some k -> nth_error rs i = Some r ->
+  nth_error (read_entries dec known (combine ids rs)) i = Some (k, fst (read_entry dec known (snd k) r)).
+Proof.
+  intros Hk Hr. unfold read_entries. rewrite nth_error_map, (combine_nth ids rs i k r Hk Hr). reflexivity.
+Qed.
+
+(* end to end: batch response of n well-formed items, n requested ids *)
+Lemma coap_read_attribution_l dec known ids items :
+  items <> [] -> forallb coap_item_ok items = true -> length ids = length items ->
+  exists entries writes,
+    rbind (coap_decode_all 0 (concat (map coap_render items))) (coap_read_exit dec known ids) = Ok (entries, writes)
+    /\ length entries = length items
+    /\ (forall i k it, nth_error ids i = Some k -> nth_error items i = Some it ->
+          nth_error entries i = Some (k, fst (read_entry dec known (snd k) (coap_classify (N.of_nat i) it))))
+    /\ (forall x v, In (x, v) writes <->
+          exists i k it b, nth_error ids i = Some k /\ nth_error items i = Some it
+                           /\ coap_classify (N.of_nat i) it = CBody b
+                           /\ snd k = x /\ known x = true /\ b <> [] /\ dec b = v).
+Proof.
+  intros Hne Hok Hl. rewrite coap_batch_aligned_l by assumption. cbn [rbind].
+  rewrite coap_read_exit_combine by (rewrite classify_from_length; lia).
+  eexists. eexists. split; [reflexivity|]. split; [|split].
+  - unfold read_entries. rewrite map_length, combine_length, classify_from_length. lia.
+  - intros i k it Hk Hit. apply read_entries_nth; [exact Hk|].
+    rewrite classify_from_nth, Hit. reflexivity.
+  - intros x v. rewrite read_writes_char. split.
+    + intros [i [k [b [Hk [Hr H]]]]]. rewrite classify_from_nth in Hr. cbn [N.add] in Hr.
+      destruct (nth_error items i) as [it|] eqn:Hit; [|discriminate]. cbn [option_map] in Hr.
+      injection Hr as Hr. exists i, k, it, b. repeat split; try tauto; try exact Hr.
+    + intros [i [k [it [b [Hk [Hit [Hc H]]]]]]]. exists i, k, b. split; [exact Hk|]. split; [|exact H].
+      rewrite classify_from_nth, Hit. cbn [option_map N.add]. rewrite Hc. reflexivity.
+Qed.
